@@ -163,6 +163,8 @@ func runC06(p *Prog, r *Report) {
 	checkCopyHeadersHelper(p, r, "C06.R5", true, false)
 	// ---- R6: the debug dump made of the incoming request before buffering does not alter it ----
 	checkDumpReadOnly(p, r, "C06.R6")
+	// ---- R7: the URL copy the copy routine relies on is complete ----
+	checkCopyURL(p, r, "C06.R7")
 	// ---- R1 ----
 	isCopy := func(v ssa.Value) (*ssa.Call, bool) {
 		c, ok := stripConv(v).(*ssa.Call)
@@ -665,6 +667,18 @@ func runC07(p *Prog, r *Report) {
 
 	// ---- R3 implicit 200 ----
 	c07ImplicitStatus(p, r, b)
+	// the recorder keeps the LAST status written in the attempt (a 1xx head followed by the final status)
+	if wh := p.MethodOf(b.rec, "WriteHeader"); wh != nil && wh.Blocks != nil {
+		okRec := false
+		for _, st := range FieldStores(wh, b.rec, recRole(p, "code")) {
+			if stripConv(st.Val) == ssa.Value(wh.Params[1]) && uncond(wh, st) {
+				okRec = true
+			}
+		}
+		r.Check(okRec, "C07.R3", "buffer.(*bufferWriter).WriteHeader: records every status it is given", p.FuncPos(wh), "code = parameter on every path", "the recorder does not overwrite its status on every WriteHeader call: after a 1xx informational head the final status of the attempt is lost (the client and the retry expression see the 1xx code)")
+	} else {
+		r.Anchor("C07.R3", "buffer.(*bufferWriter).WriteHeader", "not found")
+	}
 
 	// ---- R4 empty body ----
 	checkSingleBodySink(p, r, "C07.R4", b)
@@ -1094,6 +1108,8 @@ func c07FunctionMap(p *Prog, r *Report, funcs map[string]*ssa.Function, pkg stri
 // ---------------- C15 ----------------
 
 func runC15(p *Prog, r *Report) {
+	// R6: nothing reads the request body before the size-limited reader does: the verbose request dump only reads header fields (shared with C06.R6)
+	checkDumpReadOnly(p, r, "C15.R6")
 	// R5: the size-limited reader is applied to the request's own body, whatever the method or declared length (shared with C06.R4)
 	r.Borrow(p, runC06, map[string]string{"C06.R4": "C15.R5"}, nil)
 	b := resolveBuf(p, r, "C15.R0")
@@ -1833,6 +1849,14 @@ func checkDumpReadOnly(p *Prog, r *Report, rule string) {
 							if !freshContainer(fn, cc.Args[0], 0) {
 								bad, pos = objName(o), p.InstrPos(in)
 							}
+						case "net/http.Request.ParseForm", "net/http.Request.ParseMultipartForm", "net/http.Request.FormValue", "net/http.Request.PostFormValue",
+							"net/http.Request.FormFile", "net/http.Request.MultipartReader", "net/http.Request.SetBasicAuth", "net/http.Request.AddCookie",
+							"net/http.Request.SetPathValue", "net/http.Request.Write", "net/http.Request.WriteProxy":
+							// these fill req.Form / consume req.Body / edit the headers of the LIVE request
+							bad, pos = objName(o)+" on the live request", p.InstrPos(in)
+						}
+						if (o.Pkg().Path() == "io" || o.Pkg().Path() == "io/ioutil") && (o.Name() == "ReadAll" || o.Name() == "Copy" || o.Name() == "CopyN") {
+							bad, pos = o.Pkg().Name()+"."+o.Name()+" (reads a body)", p.InstrPos(in)
 						}
 					}
 				}
